@@ -164,6 +164,7 @@ func (t *Tokenizer) tokenizeBuffer(buf []byte, last bool) error {
 		case skipNewline:
 			t.line++
 			t.noff = off
+			i = 0 // nothing to skip when the newline ends the buffer
 			for i, b = range buf[off+1:] {
 				if spaceMap[b] != skipChar {
 					break
@@ -279,6 +280,9 @@ func (t *Tokenizer) tokenizeBuffer(buf []byte, last bool) error {
 			t.num.Reset()
 			t.mode = digitMap
 			t.num.I = uint64(b - '0')
+			if len(buf) <= off+1 { // last byte of the buffer, nothing to scan ahead
+				continue
+			}
 			for i, b = range buf[off+1:] {
 				if digitMap[b] != numDigit {
 					break
@@ -355,6 +359,10 @@ func (t *Tokenizer) tokenizeBuffer(buf []byte, last bool) error {
 				t.mode = dotMap
 				continue
 			}
+			if len(buf) <= off+1 { // last byte of the buffer, nothing to scan ahead
+				t.mode = dotMap
+				continue
+			}
 			for i, b = range buf[off+1:] {
 				if digitMap[b] != numDigit {
 					break
@@ -405,6 +413,7 @@ func (t *Tokenizer) tokenizeBuffer(buf []byte, last bool) error {
 			t.line++
 			t.noff = off
 			t.mode = afterMap
+			i = 0 // nothing to skip when the newline ends the buffer
 			for i, b = range buf[off+1:] {
 				if spaceMap[b] != skipChar {
 					break
